@@ -1,8 +1,9 @@
 /- Proofs/GapTailFits.lean — the fit guard `gapFitsBack` of a replace-around step whose gap ends in front of a
-   closing token (the gap runs to the end of its parent node), for schemas with `TextLoop`: the gap may start
-   inside a text child. -/
+   closing token (the gap runs to the end of its parent node): the gap may start inside a text child. -/
 import Proofs.GapTailInsert
 import Proofs.GapTailPath
+import Proofs.GapBack
+import Proofs.MarkMerge
 namespace PM
 open PM
 
@@ -17,10 +18,19 @@ theorem getElem?_of_drop_take_one {α} (l : List α) (n : Nat) (x : α) (h : (l.
     have := congrArg List.head? hd
     simpa [List.head?_drop] using this
 
-/-- **the gap of a replace-around step that ends in front of a closing token fits back** (schema with `TextLoop`):
+theorem tokAligned_of_cl (l : List Tok) (p : Nat) (h : l[p]? = some Tok.cl) : tokAligned l p = true := by
+  cases p with
+  | zero => rfl
+  | succ p =>
+    simp only [tokAligned, h]
+    split <;> simp_all
+
+/-- **the gap of a replace-around step that ends in front of a closing token fits back** (no schema condition: since
+    `insert_into` validates the content it built, `gapFitsBack_of_valid` needs none — `TextLoop S` was a hypothesis
+    here; the cut in the remainder is pair-aligned because a closing token follows it):
     `gf … gt` removed from `doc.slice(f, t)` can be re-inserted by `insert_at`, also when `gf` lies inside a text
     child -/
-theorem gapFitsBack_of_tail (S : Schema) (hts : TextLoop S) (doc : Node) (f t gf gt : Nat) (old rem gap : Slice)
+theorem gapFitsBack_of_tail (S : Schema) (doc : Node) (f t gf gt : Nat) (old rem gap : Slice)
     (hd : S.checkNode doc = true) (hn : fnorm doc.kids = true)
     (hg : f ≤ gf ∧ gf ≤ gt ∧ gt < t) (ht : t ≤ fsize doc.kids)
     (hsl : doc.slice f t = .ok old) (hgap : doc.slice gf gt = .ok gap)
@@ -60,8 +70,9 @@ theorem gapFitsBack_of_tail (S : Schema) (hts : TextLoop S) (doc : Node) (f t gf
     rw [List.getElem?_eq_getElem hlt] at hcl
     simp only [Option.some.injEq] at hcl
     rw [hcl]
-  -- unfold the guard
-  simp only [gapFitsBack, hsl, hgap, hrm]
+  -- the cut in the remainder is in front of that closing token
+  refine (gapFitsBack_of_valid S doc f t gf gt old rem gap hd hn ⟨hg.1, hg.2.1, by omega⟩ ht hsl hgap hgc hrm ?_).1
+  have hrn := removeBetween_norm old rem (gf - f) (gt - f) hon.1 hrm
   unfold Slice.removeBetween at hrm
   simp only at hrm
   split at hrm
@@ -69,12 +80,15 @@ theorem gapFitsBack_of_tail (S : Schema) (hts : TextLoop S) (doc : Node) (f t gf
   · split at hrm
     · rename_i c1 hc1
       simp at hrm; subst hrm
-      have hpath : TailPath old.content (gf - f + old.openStart) (gt - f + old.openStart) :=
-        tailPath_of_remove old.content _ _ c1 (fnormKids_of_fnorm hon.1) (by omega) hc1 (Or.inr hclo)
-      obtain ⟨c, hc⟩ := insert_remove_tail S hts gap.content hgn.1 hpath c1 none old.openStart old.openEnd hc1
-        hon.1 hov (by intro p hp; simp at hp)
-        (by rw [hwin]; congr 1; omega)
-      simp only [Slice.insertAt, hc]
+      simp only at hrn ⊢
+      obtain ⟨htk1, hT1⟩ := removeRange_toks old.content old.content _ _ 0 _ _ [] c1 rfl rfl (by simp)
+        (by simp) (by omega) hc1
+      rw [alignedAt_toks c1 _ hrn]
+      apply tokAligned_of_cl
+      have hlen : ((ftoks old.content).take (gf - f + old.openStart)).length = gf - f + old.openStart := by
+        rw [List.length_take, ftoks_length]; omega
+      rw [htk1, List.getElem?_append_right (by omega), hlen, Nat.sub_self, List.getElem?_drop, Nat.add_zero]
+      exact hclo
     · simp at hrm
 
 end PM
